@@ -32,6 +32,7 @@ def query_universe():
         E("r2", "A", 10000, 45, [["t", "a"]]),
         E("dq", "A", 5, 55, [["e", "q5"]]),
         E("qq", "B", 1, 35, [["@qt", "a"], ["@bs", "ab"], ["@dq", "a"]]),
+        E("qm", "C", 1, 25, [["e", "q1"], ["e", "q2"], ["p", "A"], ["t", "a"], ["t", "ab"], ["t", "a"]]),   # the reply shape: several listed values of one name
     ]
 
 
@@ -39,8 +40,8 @@ QUERY_SYMTAB = {"qt": "'", "bs": "\\", "dq": '"'}
 
 
 HISTORIES = [
-    ["q1", "q2", "q3", "q4", "q5", "q6", "q7", "q8", "q9", "r1", "r2", "dq", "qq"],   # r1 replaced, q5 deleted
-    ["q7", "q3", "q2", "q6"],
+    ["q1", "q2", "q3", "q4", "q5", "q6", "q7", "q8", "q9", "r1", "r2", "dq", "qq", "qm"],   # r1 replaced, q5 deleted
+    ["q7", "q3", "q2", "q6", "qm"],
     ["q1", "q4", "q9", "q8", "r2", "r1"],
     ["q1", "q2", "q3"],
     ["q8", "q7"],
@@ -52,7 +53,8 @@ def base_filters():
     authors = [None, ["A"], ["B"], ["A", "B"], ["D"], ["C", "A"]]
     kinds = [None, [1], [7], [1, 7], [0], [2], [1, 2, 7], [10000, 5]]
     tags = [None, {"t": ["a"]}, {"t": ["ab"]}, {"t": ["a", "abc"]}, {"e": ["q1"]}, {"p": ["A"]}, {"t": ["a"], "p": ["A"]},
-            {"t": ["zzz"]}, {"p": ["A", "B"]}, {"e": ["q1"], "t": ["ab"]}, {"@qt": ["a"]}, {"@bs": ["ab", "a"]}, {"@dq": ["a"]}]
+            {"t": ["zzz"]}, {"p": ["A", "B"]}, {"e": ["q1"], "t": ["ab"]}, {"@qt": ["a"]}, {"@bs": ["ab", "a"]}, {"@dq": ["a"]},
+            {"t": ["a", "ab"], "p": ["A"]}, {"e": ["q1", "q2"], "p": ["A", "B"]}]
     return ids, authors, kinds, tags
 
 
@@ -141,6 +143,15 @@ def malformed_reqs(uni):
             # nothing else constrains the answer, so only an empty answer is sound
             if key in ("ids", "authors", "kinds", "#t") and any(j is x or (type(j) is type(x) and j == x) for x in NOCOERCE):
                 out.append(([{key: j}], [{"ids": []}]))
+    # near misses: well-typed strings that are not the id / pubkey of any event but differ from one only past the 64th
+    # character or in the last digit.  NIP-01 compares ids and authors exactly (prefixes aside), so whatever
+    # the relay makes of such a value, an event may not be served for it.
+    for key, base in (("ids", hexid), ("authors", C.pubkey("A")), ("authors", C.pubkey("B"))):
+        flip = base[:-1] + ("0" if base[-1] != "0" else "1")
+        for v in [base + "0", base + "a", base + "f", base + "00", base + "000", base + "0" * 64, flip]:      # (not base.upper(): the same 32 bytes in another letter case - the relay lower-cases hex, which is not a mismatch)
+            out.append(([{key: [v]}], [{"ids": []}]))
+            out.append(([{key: [v], "kinds": [1, 7]}], [{"ids": []}]))
+            out.append(([{key: [v, "ee" * 32]}], [{"ids": []}]))
     # unknown / odd keys, user-supplied `tags`, # keys of other lengths, non-dict filters
     odd = [{"tags": [["t", ["a"]]], "kinds": [1]}, {"#": ["a"], "kinds": [1]}, {"#tt": ["a"], "kinds": [1]}, {"# ": ["a"], "kinds": [1]},
            {"foo": 1, "kinds": [1]}, {"#t": "a", "kinds": [1]}, {"kinds": [1], "#t": [["a"]]}, {"kinds": [1], "#t": [{"a": 1}]},
@@ -202,12 +213,11 @@ def _sql_single_limit_applied(a, max_limit=3):
 
 
 def _sql_one_limit(a):
+    """open finding sql-one-limit-for-all-filters, recognised precisely: a REQ with several filters on the SQL backend whose
+    recorded answer is exactly what the single statement `... WHERE (f1) OR (f2) ... ORDER BY created_at DESC LIMIT <last filter's>`
+    means (TLC: Query!SqlModel holds, i.e. no SqlModelDeviation marker on the line).  Any other wrong answer is reported."""
     fs = a["line"]["fs"]
-    if not (a["backend"] == "sql" and a["formula"] in ("C12_Limit", "C02_Complete") and len(fs) >= 2):
-        return False
-    # either the limits differ (a filter is over-served / truncated by another filter's limit) or the union was cut
-    # at exactly the single LIMIT
-    return len({f.get("limit") for f in fs}) > 1 or len(a["line"]["res"]) == _sql_single_limit_applied(a)
+    return a["backend"] == "sql" and a["formula"] in ("C12_Limit", "C02_Complete") and len(fs) >= 2 and a.get("sqlmodel", False)
 
 
 def _multi_key(f):
@@ -374,6 +384,7 @@ def _run(prop, tier, seed, backends, limited):
                 if len(samples) < 4 and ln["res"] and nq % 997 == 3:
                     samples.append({"backend": backend, "palette": js["palette"], "store": sorted(_store_before(tr, n + 1)),
                                     "filters": ln["fs"], "concrete": [uni.conc_filter(f) for f in ln["fs"]], "answer": ln["res"]})
+            off_model = {b[1] for b in verdicts[k] if b[0] == "SqlModelDeviation"}
             for b in verdicts[k]:
                 if not b[0].startswith(own):
                     other[b[0]] = other.get(b[0], 0) + 1
@@ -381,7 +392,7 @@ def _run(prop, tier, seed, backends, limited):
                 ln = tr[b[1] - 1]
                 store = _store_before(tr, b[1])
                 attrs = {"backend": backend, "formula": b[0], "line": _pub(ln), "uni": uni, "store": store, "palette": js["palette"],
-                         "limited": limited}
+                         "limited": limited, "sqlmodel": backend == "sql" and b[1] not in off_model}
                 what = "%s on %s (palette %s): %s violated by answer %s to filters %s%s over store %s" % (
                     prop, backend, js["palette"], b[0], ln["res"], ln["fs"],
                     " (sent as %r)" % (ln["_conc"],) if ln.get("_raw") else "", sorted(store))
